@@ -384,3 +384,26 @@ Theorem C05_running_mean_accuracy_coarse : forall (A B : f64) (errf : example ->
   (Rabs (B2R avg - Rmean (map (fun e => B2R (errf e)) d)) <= B2R B - B2R A)%R.
 Proof. exact running_mean_accuracy_coarse. Qed.
 Print Assumptions C05_running_mean_accuracy_coarse.
+
+(* the documented fitness is "minus the mean": distance between the binary64
+   running mean and the exact mean of the same errors, for n < 2^53 rows with
+   errors in [0, B]:   |avg - mean| <= (n + 1)/2 * 3 * (2^-53 * B + 2^-1075)
+   (u53 = 2^-53, heta = 2^-1075: one rounding is off by at most u53*|t| + heta,
+   an iteration makes three, and the recurrence damps old errors by (k-1)/k) *)
+Theorem C05_running_mean_accuracy : forall (B : f64) (errf : example -> f64) (d : list example),
+  d <> [] -> (0 <= B2R B)%R ->
+  (forall e, In e d -> F64.is_finite (errf e) = true /\ (0 <= B2R (errf e) <= B2R B)%R) ->
+  (Z.of_nat (length d) < 2 ^ 53)%Z ->
+  let avg := fst (snd (soe_loop errf 1 0 d (F64.zero, F64.zero))) in
+  (Rabs (B2R avg - Rmean (map (fun e => B2R (errf e)) d)) <=
+   (INR (length d) + 1) / 2 * (3 * (u53 * B2R B + heta)))%R.
+Proof. exact running_mean_accuracy. Qed.
+Print Assumptions C05_running_mean_accuracy.
+
+Example C05_accuracy_constants : u53 = (/ 2 * / 4503599627370496)%R /\ (0 < heta)%R.
+Proof.
+  split.
+  - unfold u53. f_equal.
+  - unfold heta. assert (0 < Flocq.Core.Raux.bpow Flocq.Core.Zaux.radix2 (-1074))%R by apply Flocq.Core.Raux.bpow_gt_0.
+    apply Rmult_lt_0_compat; [apply Rinv_0_lt_compat, Rlt_0_2|assumption].
+Qed.
